@@ -12,9 +12,12 @@ Size, getUnconfirmed) — what the code does, including its quirks:
 * `FilterByState` returns early when the nonce did not change, otherwise re-validates every
   transaction against the new state but, unless the balance decreased (`balCheck`), stops at the first
   nonce-too-high transaction and keeps the rest unvalidated;
-* `setStateDB` computes `reorged = ¬(new ≠ best ∧ parent ≠ best)` (so the *full* re-check of all
-  lists happens when the block extends the pool's best block, and only the accounts named in the
-  block are re-checked when the parent is some other block);
+* `setStateDB` returns `reorged = true` on every path since repair af8aff9a (before it: `false` when
+  `new ≠ best ∧ parent ≠ best`, i.e. exactly on the first block of a reorganisation), so every list
+  is re-checked on every notification; the dirty-account short-cut of `removeOnBlockArrival`
+  (`!reorg && !dirty[acc]`) is still transcribed (`rechecked`) but dormant;
+* `removeTx` takes the list key from the pooled transaction's verified address when it has one
+  (repair ac6d27df), else from the sender field of the transaction handed in;
 * counters are updated incrementally (`orphan -= diff`, `length--`), never recomputed;
 * `getUnconfirmed` creates (and keeps) an empty list for an account it is asked about.
 
@@ -254,9 +257,10 @@ def Pool.dropTxs (P : Pool) (txs : List Tx) : Pool :=
 
 /-- `setStateDB` (non-test configuration): (pool, reorged, forked). `σ` is the account state at
 the block's state root. -/
-def Pool.setStateDB (P : Pool) (new parent chain : Nat) (σ : Nat → Acct) : Pool × Bool × Bool :=
+def Pool.setStateDB (P : Pool) (new _parent chain : Nat) (σ : Nat → Acct) : Pool × Bool × Bool :=
   if new ≠ P.best then
-    let reorged := !(decide (parent ≠ P.best))
+    -- `reorged := true; if parent != best { reorged = true }` (af8aff9a; was `= false`)
+    let reorged := true
     let P1 := { P with best := new, state := σ }
     if chain ≠ P.chain then ({ P1 with chain := chain }, reorged, true) else (P1, reorged, false)
   else (P, true, false)
